@@ -98,9 +98,10 @@ theorem legacy_keyed_empty_matches_falsy :
 /-- patch: exactly one PATCH whose body is the payload of the target, Retry with the patch delay -/
 theorem drift_action_patch (c : Cfg) (t live la body d : JVal)
     (hla : extractLastApplied c.codec live = some la) (hv : validateMatch t live la false = .differ)
-    (hp : c.policy = .patch d) (ho : c.ownerFix = .none) (hb : prepareForApi c.codec t = some body) :
+    (hp : c.policy = .patch d) (ho : c.ownerFix = .none) (hf : ownerRefsFree t = true)
+    (hb : prepareForApi c.codec t = some body) :
     pass c t (some live) = [⟨some (mergePatch live body), .retry d, [.patch body]⟩] := by
-  simp [pass, passPresent, hla, hv, correct, hp, ho, hb]
+  simp [pass, passPresent, hla, hv, correct, hp, ho, hb, dropOwnerRefs, hf]
 
 /-- recreate: exactly one DELETE, Retry with the recreate delay -/
 theorem drift_action_recreate (c : Cfg) (t live la d : JVal)
@@ -129,7 +130,7 @@ theorem drift_action (c : Cfg) (t live la : JVal) (h : C04.TargetOk t) (hl : LaS
   cases hp : c.policy with
   | patch d =>
     obtain ⟨body, hb, _⟩ := payload_facts c.codec t h.wf h.nodup h.annFree
-    exact ⟨body, hb, drift_action_patch c t live la body d hla hv hp ho hb⟩
+    exact ⟨body, hb, drift_action_patch c t live la body d hla hv hp ho h.ownerFree hb⟩
   | recreate d => exact drift_action_recreate c t live la d hla hv hp
   | never => exact drift_action_never c t live la hla hv hp
 
